@@ -181,6 +181,10 @@ def transforms3d():
         F('rpy2r_badorder', [v3], lambda v: t3.rpy2r(v, order='zxy'), 'base.rpy2r(order="zxy") — not a documented order'),
         F('tr2rpy_zyx_deg', [R3], lambda m: t3.tr2rpy(m, unit='deg'), 'base.tr2rpy(R, unit="deg")'),
         F('tr2rpy_zyx_T', [T4], lambda T: t3.tr2rpy(T), 'base.tr2rpy(4x4)'),
+        F('tr2rpy_xyz_deg', [R3], lambda m: t3.tr2rpy(m, unit='deg', order='xyz'), 'base.tr2rpy(R, unit="deg", order="xyz")'),
+        F('tr2rpy_yxz_deg', [R3], lambda m: t3.tr2rpy(m, unit='deg', order='yxz'), 'base.tr2rpy(R, unit="deg", order="yxz")'),
+        F('tr2eul_T', [T4], lambda T: t3.tr2eul(T), 'base.tr2eul(4x4)'),
+        F('tr2angvec_deg', [R3], lambda m: t3.tr2angvec(m, unit='deg'), 'base.tr2angvec(R, unit="deg")'),
         F('eul2r_rad', [v3], lambda v: t3.eul2r(v), 'base.eul2r(vector)'),
         F('eul2r_deg', [v3], lambda v: t3.eul2r(v, unit='deg'), 'base.eul2r(vector, unit="deg")'),
         F('eul2r_scalars', [r, p, yw], lambda a, b, c: t3.eul2r(a, b, c), 'base.eul2r(phi, theta, psi)'),
@@ -231,6 +235,7 @@ def transforms2d():
         F('xyt2tr', [v3], lambda v: t2.xyt2tr(v), 'base.xyt2tr'),
         F('xyt2tr_deg', [v3], lambda v: t2.xyt2tr(v, 'deg'), 'base.xyt2tr(unit="deg")'),
         F('tr2xyt', [T3], lambda T: t2.tr2xyt(T), 'base.tr2xyt'),
+        F('tr2xyt_deg', [T3], lambda T: t2.tr2xyt(T, unit='deg'), 'base.tr2xyt(unit=deg)'),
         F('transl2_xy', [P('x'), P('y')], lambda x, y: t2.transl2(x, y), 'base.transl2(x, y)'),
         F('transl2_v', [t2_], lambda t: t2.transl2(t), 'base.transl2(2-vector)'),
         F('transl2_T', [T3], lambda T: t2.transl2(T), 'base.transl2(3x3) -> translation'),
